@@ -3,16 +3,19 @@ Model of the concurrent map (`stream/concurrent_stream.go`, reached through `Map
 inside one materialisation by the sequential terminal (`stream/shpan_stream.go:97-151`), as a small-step
 transition system.  Pipeline:  source provider P  →  concurrent map (c workers)  →  downstream + terminal.
 
-Goroutines: one producer (concurrent_stream.go:99-143), c workers (:56-96), the consumer (the goroutine that runs the
-terminal; it executes `Emit` :148-165 and, when returning, the deferred close sequence shpan_stream.go:127-130 →
-unsafe_stream_provider.go:81-112 → shpan_stream.go:337-341).
+Goroutines: one producer (concurrent_stream.go:122-168), c workers (:72-115), the consumer (the goroutine that runs the
+terminal; it executes `Emit` :173-193 and, when returning, the deferred close sequence shpan_stream.go:127-130 →
+unsafe_stream_provider.go:81-112 → shpan_stream.go:337-341 over the *guarded* source :44-47: first the guard's Close
+`stopProducer` :52-58 = cancelProducer(); <-producerStopped, then the source's own lifecycle elements).
 
 Contexts (all `context.WithCancel` children of the caller ctx):
   ctx0  caller ctx, the one the terminal checks (shpan_stream.go:134) and passes to `Emit` (:139)
-  ctx1  materialisation ctx made by doOpenStream (shpan_stream.go:300); workers and producer select on it and the
-        producer passes it to the source's Emit (concurrent_stream.go:117).  Cancelled by ctx0 or by the terminal's
-        deferred cancelFunc (shpan_stream.go:129) — *after* the lifecycle elements were closed.
-  eofCtx  cancelled by the producer when the source returns io.EOF (concurrent_stream.go:123)
+  ctx1  materialisation ctx made by doOpenStream (shpan_stream.go:300); the workers select on it and pass it to the
+        mapper.  Cancelled by ctx0 or by the terminal's deferred cancelFunc (shpan_stream.go:129) — *after* the
+        lifecycle elements were closed.
+  producerCtx  child of ctx1 (:117), additionally cancelled by stopProducer; the producer selects on it and passes it
+        to the source's Emit (:142)  (fix 784d281; in the earlier code the producer used ctx1 and nobody waited for it)
+  eofCtx  cancelled by the producer when the source returns io.EOF (concurrent_stream.go:148)
 (the sub-stream ctx made by openSubStreamUnsafe is cancelled at `close1`; nobody selects on it.)
 
 Elements are identified by their source index `i`; the mapped value of element `i` is `f (src[i])`, so a list of
@@ -37,22 +40,25 @@ inductive Item
   | err
   deriving DecidableEq, Repr, Hashable
 
-/-- Producer goroutine (concurrent_stream.go:99-143). -/
+/-- Producer goroutine (concurrent_stream.go:122-168). -/
 inductive PPc
-  | top       -- :111 `select { case <-ctx.Done(): return; default: pull }`
-  | inEmit    -- :117 inside the source's Emit (the provider may block here)
-  | have (it : Item) -- :129 / :136 `select { case srcChan <- it; case <-ctx.Done(): return }`
-  | closing   -- deferred :105 close(srcChan) pending
-  | waiting   -- :107 wg.Wait()
-  | done      -- :108 close(tgtChan) executed, goroutine exited
+  | top       -- :136 `select { case <-producerCtx.Done(): return; default: pull }`
+  | inEmit    -- :142 inside the source's Emit (the provider may block here)
+  | have (it : Item) -- :154 / :161 `select { case srcChan <- it; case <-producerCtx.Done(): return }`
+  | stopping  -- deferred :134 close(producerStopped) pending (runs first: declared last)
+  | closing   -- deferred :128 close(srcChan) pending
+  | waiting   -- :130 wg.Wait()
+  | done      -- :131 close(tgtChan) executed, goroutine exited
   deriving DecidableEq, Repr, Hashable
 
 /-- The goroutine running the terminal. -/
 inductive CPc
   | check   -- shpan_stream.go:134 `if ctx.Err() != nil`
-  | sel     -- concurrent_stream.go:149 `select { case <-ctx.Done(); case r, ok := <-tgtChan }`
+  | sel     -- concurrent_stream.go:174 `select { case <-ctx.Done(); case r, ok := <-tgtChan }`
   | got     -- Emit returned a value; downstream operators / the terminal's callback run
-  | close0  -- deferred close sequence: source provider Close pending (sub-streams are closed first)
+  | close0  -- deferred close sequence reached the guarded source: stopProducer's cancelProducer() pending (:54)
+  | closeW  -- :55 `<-c.producerStopped`
+  | closeP  -- source provider Close pending
   | close1  -- source Close returned; cancel of the sub-stream ctx pending (unsafe_stream_provider.go:41)
   | close2  -- cancelFunc of the materialisation ctx pending (shpan_stream.go:129)
   | ret     -- terminal returned
@@ -68,7 +74,11 @@ structure Cfg where
   n : Nat          -- number of elements the source yields before io.EOF
   c : Nat          -- concurrency (≥ 1: mapStreamConcurrently rejects ≤ 0, concurrent_stream.go:30)
   e : Nat := 0     -- how many times the source's Emit may fail with a non-EOF error (fault budget)
-  /-- variant switch: `true` is the code as it is (concurrent_stream.go:154-165, after fix 619e47e: when tgtChan is
+  /-- variant switch: `true` is the code as it is (fix 784d281: the guard element stops and joins the producer before
+      the source's own elements are closed); `false` is the earlier code (no guard, the producer runs on ctx1), kept to
+      show the close/emit overlap of finding D5 on a witness schedule. -/
+  fix5 : Bool := true
+  /-- variant switch: `true` is the code as it is (concurrent_stream.go:179-190, after fix 619e47e: when tgtChan is
       closed Emit looks at ctx.Err() before eofCtx.Err()); `false` is the earlier order (eofCtx first), kept to show
       on a witness schedule that `C07_cancel_error` depends on that order (finding D24). -/
   fix24 : Bool := true
@@ -85,10 +95,12 @@ structure St where
   prod : PPc
   srcChan : List Item       -- capacity c
   srcChClosed : Bool
+  pStopped : Bool           -- producerStopped is closed
+  pcancel : Bool            -- cancelProducer was called
   -- workers (anonymous): c = wIdle + |wMap| + |wHold| + wExit
-  wIdle : Nat               -- at the top-level select :59
-  wMap : List Nat           -- inside the mapper for index i (:78)
-  wHold : List Item         -- at `select { tgtChan <- r; <-ctx.Done() }` (:69/:80/:87)
+  wIdle : Nat               -- at the top-level select :77
+  wMap : List Nat           -- inside the mapper for index i (:96)
+  wHold : List Item         -- at `select { tgtChan <- r; <-ctx.Done() }` (:87/:98/:105)
   wExit : Nat               -- returned (wg.Done ran)
   tgtChan : List Item       -- capacity c
   tgtClosed : Bool
@@ -109,21 +121,23 @@ structure St where
 
 /-- ctx1 is a child of ctx0, additionally cancelled by the terminal's deferred cancelFunc. -/
 @[inline] def St.ctx1 (s : St) : Bool := s.ctx0 || s.term1
+/-- producerCtx is a child of ctx1, additionally cancelled by stopProducer. -/
+@[inline] def St.pctx (s : St) : Bool := s.ctx0 || s.term1 || s.pcancel
 
 inductive Label
   -- producer
-  | pTop | pEmitVal | pEmitEof | pEmitErr | pSend | pDrop | pCloseSrc | pWait
+  | pTop | pEmitVal | pEmitEof | pEmitErr | pSend | pDrop | pStop | pCloseSrc | pWait
   -- workers
   | wRecv | wExitClosed | wExitCtx | wMapOk (i : Nat) | wMapErr (i : Nat) | wSend (it : Item) | wDrop (it : Item)
   -- consumer
-  | cCheck | cSelCtx | cRecv | cClosed | cNext | cRepull | cStop | cFail | cClose0 | cClose1 | cClose2
+  | cCheck | cSelCtx | cRecv | cClosed | cNext | cRepull | cStop | cFail | cClose0 | cCloseW | cCloseP | cClose1 | cClose2
   -- environment
   | cancel
   deriving DecidableEq, Repr
 
 def init (cfg : Cfg) : St :=
   { cursor := 0, emitting := 0, srcClosed := false, badWindow := false, badOverlap := false,
-    prod := .top, srcChan := [], srcChClosed := false,
+    prod := .top, srcChan := [], srcChClosed := false, pStopped := false, pcancel := false,
     wIdle := cfg.c, wMap := [], wHold := [], wExit := 0, tgtChan := [], tgtClosed := false,
     eof := false, ctx0 := false, term1 := false,
     cons := .check, delivered := [], res := none, mapCalls := [], errBudget := cfg.e, drained := false,
@@ -131,72 +145,74 @@ def init (cfg : Cfg) : St :=
 
 def step (cfg : Cfg) (s : St) : Label → Option St
   /- producer ------------------------------------------------------------------------------------------------ -/
-  | .pTop =>       -- :111-117
+  | .pTop =>       -- :136-142
     if s.prod = .top then
-      if s.ctx1 then some { s with prod := .closing }
+      if s.pctx then some { s with prod := .stopping }
       else some { s with prod := .inEmit, emitting := s.emitting + 1, badWindow := s.badWindow || s.srcClosed }
     else none
   | .pEmitVal =>   -- the source returns its next element
     if s.prod = .inEmit ∧ s.cursor < cfg.n then
       some { s with prod := .have (.val s.cursor), cursor := s.cursor + 1, emitting := s.emitting - 1 }
     else none
-  | .pEmitEof =>   -- :119-124 io.EOF: eofCancelFunc(); return
+  | .pEmitEof =>   -- :144-149 io.EOF: eofCancelFunc(); return
     if s.prod = .inEmit ∧ s.cursor = cfg.n then
-      some { s with prod := .closing, eof := true, emitting := s.emitting - 1 }
+      some { s with prod := .stopping, eof := true, emitting := s.emitting - 1 }
     else none
-  | .pEmitErr =>   -- :126-132 any other error (source failure, recovered panic, ctx error of a ctx-honouring provider)
+  | .pEmitErr =>   -- :150-157 any other error (source failure, recovered panic, ctx error of a ctx-honouring provider)
     if s.prod = .inEmit ∧ 0 < s.errBudget then
       some { s with prod := .have .err, emitting := s.emitting - 1, faulted := true, errBudget := s.errBudget - 1 }
     else none
-  | .pSend =>      -- :129 / :136 send branch; afterwards the loop continues (also after an error)
+  | .pSend =>      -- :154 / :161 send branch; afterwards the loop continues (also after an error)
     match s.prod with
     | .have it => if s.srcChan.length < cfg.c then some { s with prod := .top, srcChan := s.srcChan ++ [it] } else none
     | _ => none
-  | .pDrop =>      -- :130 / :137 ctx.Done branch: return (the item in hand is dropped)
+  | .pDrop =>      -- :155 / :162 producerCtx.Done branch: return (the item in hand is dropped)
     match s.prod with
-    | .have _ => if s.ctx1 then some { s with prod := .closing } else none
+    | .have _ => if s.pctx then some { s with prod := .stopping } else none
     | _ => none
-  | .pCloseSrc =>  -- :105
+  | .pStop =>      -- :134 close(producerStopped): the source is not used any more
+    if s.prod = .stopping then some { s with prod := .closing, pStopped := true } else none
+  | .pCloseSrc =>  -- :128
     if s.prod = .closing then some { s with prod := .waiting, srcChClosed := true } else none
-  | .pWait =>      -- :107-108 wg.Wait() returns when every worker ran wg.Done; then close(tgtChan)
+  | .pWait =>      -- :130-131 wg.Wait() returns when every worker ran wg.Done; then close(tgtChan)
     if s.prod = .waiting ∧ s.wExit = cfg.c then some { s with prod := .done, tgtClosed := true } else none
   /- workers ------------------------------------------------------------------------------------------------- -/
-  | .wRecv =>      -- :63 receive; value → mapper call :78, error → forward :69
+  | .wRecv =>      -- :81 receive; value → mapper call :96, error → forward :87
     if 0 < s.wIdle then
       match s.srcChan with
       | .val i :: r => some { s with wIdle := s.wIdle - 1, srcChan := r, wMap := s.wMap ++ [i], mapCalls := s.mapCalls ++ [i] }
       | .err :: r => some { s with wIdle := s.wIdle - 1, srcChan := r, wHold := s.wHold ++ [.err] }
       | [] => none
     else none
-  | .wExitClosed => -- :64-66 srcChan closed and drained
+  | .wExitClosed => -- :82-84 srcChan closed and drained
     if 0 < s.wIdle ∧ s.srcChan = [] ∧ s.srcChClosed then some { s with wIdle := s.wIdle - 1, wExit := s.wExit + 1 } else none
-  | .wExitCtx =>   -- :60-62
+  | .wExitCtx =>   -- :78-80
     if 0 < s.wIdle ∧ s.ctx1 then some { s with wIdle := s.wIdle - 1, wExit := s.wExit + 1 } else none
   | .wMapOk i =>   -- mapper returned a value
     if i ∈ s.wMap then some { s with wMap := s.wMap.erase i, wHold := s.wHold ++ [.val i] } else none
-  | .wMapErr i =>  -- mapper returned an error / panicked (recovered by callRecovering :178-185)
+  | .wMapErr i =>  -- mapper returned an error / panicked (recovered by callRecovering :205-212)
     if i ∈ s.wMap then some { s with wMap := s.wMap.erase i, wHold := s.wHold ++ [.err], faulted := true } else none
-  | .wSend it =>   -- :70 / :82 / :88 send branch
+  | .wSend it =>   -- :88 / :100 / :106 send branch
     if it ∈ s.wHold ∧ s.tgtChan.length < cfg.c then
       some { s with wHold := s.wHold.erase it, tgtChan := s.tgtChan ++ [it], wIdle := s.wIdle + 1 }
     else none
-  | .wDrop it =>   -- :71 / :83 / :89 ctx.Done branch: return
+  | .wDrop it =>   -- :89 / :101 / :107 ctx.Done branch: return
     if it ∈ s.wHold ∧ s.ctx1 then some { s with wHold := s.wHold.erase it, wExit := s.wExit + 1 } else none
   /- consumer ------------------------------------------------------------------------------------------------ -/
   | .cCheck =>     -- shpan_stream.go:134-138
     if s.cons = .check then
       if s.ctx0 then some { s with cons := .close0, res := some .errCtx } else some { s with cons := .sel }
     else none
-  | .cSelCtx =>    -- concurrent_stream.go:150-151
+  | .cSelCtx =>    -- concurrent_stream.go:175-176
     if s.cons = .sel ∧ s.ctx0 then some { s with cons := .close0, res := some .errCtx } else none
-  | .cRecv =>      -- :152, :164 Unpack
+  | .cRecv =>      -- :177, :191 Unpack
     if s.cons = .sel then
       match s.tgtChan with
       | .val i :: r => some { s with cons := .got, tgtChan := r, delivered := s.delivered ++ [i] }
       | .err :: r => some { s with cons := .close0, tgtChan := r, res := some .errOther }
       | [] => none
     else none
-  | .cClosed =>    -- :154-162 channel closed and drained
+  | .cClosed =>    -- :179-190 channel closed and drained
     if s.cons = .sel ∧ s.tgtChan = [] ∧ s.tgtClosed then
       if cfg.fix24 ∧ s.ctx0 then some { s with cons := .close0, res := some .errCtx, drained := true }
       else if s.eof then some { s with cons := .close0, res := some .ok, drained := true }
@@ -211,8 +227,15 @@ def step (cfg : Cfg) (s : St) : Label → Option St
     if s.cons = .got then some { s with cons := .close0, res := some .ok, stopped := true } else none
   | .cFail =>      -- downstream / consumer error
     if s.cons = .got then some { s with cons := .close0, res := some .errOther, stopped := true } else none
-  | .cClose0 =>    -- unsafe_stream_provider.go:81-90 → shpan_stream.go:337-341: P.Close() is called
+  | .cClose0 =>    -- unsafe_stream_provider.go:81-90 → shpan_stream.go:337-341 over the guarded source: first element =
+                   -- the guard, stopProducer :52-58: cancelProducer()
     if s.cons = .close0 then
+      if cfg.fix5 then some { s with cons := .closeW, pcancel := true } else some { s with cons := .closeP }
+    else none
+  | .cCloseW =>    -- :55 <-producerStopped
+    if s.cons = .closeW ∧ s.pStopped then some { s with cons := .closeP } else none
+  | .cCloseP =>    -- the source's own lifecycle elements: P.Close() is called
+    if s.cons = .closeP then
       some { s with cons := .close1, srcClosed := true, badOverlap := s.badOverlap || decide (0 < s.emitting) }
     else none
   | .cClose1 =>    -- unsafe_stream_provider.go:41 cancel of the sub-stream ctx; :108-110 provider Close (no-op :20)
@@ -243,8 +266,8 @@ def cnt (i : Nat) (s : St) : Nat :=
 
 /-- Library-internal labels in the fixed priority order the driver uses to run the model to quiescence. -/
 def internalLabels (s : St) : List Label :=
-  [.cCheck, .cRecv, .cClosed, .cSelCtx, .cClose0, .cClose1, .cClose2,
+  [.cCheck, .cRecv, .cClosed, .cSelCtx, .cClose0, .cCloseW, .cCloseP, .cClose1, .cClose2,
    .wRecv, .wExitClosed, .wExitCtx] ++ s.wHold.map .wSend ++ s.wHold.map .wDrop ++
-  [.pSend, .pDrop, .pTop, .pCloseSrc, .pWait]
+  [.pSend, .pDrop, .pTop, .pStop, .pCloseSrc, .pWait]
 
 end ShpanVerif.Model.ConcMap
